@@ -431,7 +431,14 @@ impl<'a> ParserState<'a> {
         if fileid == 0 || fileid >= self.filenames.len() {
             None
         } else {
-            Some(self.filenames[fileid].to_string())
+            // items from a file that is included by an include file belong to the /include directive in the main file
+            let filename = &self.filenames[fileid];
+            Some(
+                filename
+                    .main_include
+                    .clone()
+                    .unwrap_or_else(|| filename.to_string()),
+            )
         }
     }
 
